@@ -75,7 +75,7 @@ func genProg(r *vh.Rng, nwf int, mem bool) []Stmt {
 				pendingS, haveS = true, true
 			}
 		case 4: // wait count with arbitrary thresholds
-			s = Stmt{Op: "waitcnt", A: []int{0, 1, 2, 15}[r.Intn(4)], B: []int{0, 1, 2, 3, 15}[r.Intn(5)]}
+			s = Stmt{Op: "waitcnt", A: []int{0, 1, 2, 7, 14, 15}[r.Intn(6)], B: []int{0, 1, 2, 3, 7, 14, 15, 16, 31}[r.Intn(9)]}
 			if r.Intn(3) == 0 {
 				s = guard(r, nwf, s)
 			} else {
@@ -149,7 +149,7 @@ func genProg(r *vh.Rng, nwf int, mem bool) []Stmt {
 
 // fixed shapes that aim at particular corners
 func corner(r *vh.Rng, k int) Case {
-	switch k % 10 {
+	switch k % 13 {
 	case 0: // many small groups on one CU: more waiting wavefronts than the barrier buffer holds
 		return Case{Name: "full-barrier-buffer", NWf: 2, NWg: 20, Prog: []Stmt{
 			{Op: "sload", G: "eq", K: 1}, {Op: "sload", G: "eq", K: 1}, {Op: "waitcnt", A: 15, B: 0, G: "eq", K: 1},
@@ -224,6 +224,45 @@ func corner(r *vh.Rng, k int) Case {
 		}
 		p = append(p, Stmt{Op: "fstore"}, Stmt{Op: "endpgm"})
 		return Case{Name: "gather-storm", NWf: shape[0], NWg: shape[1], Prog: p}
+	case 9: // wait-count thresholds as a grid, with 17-40 loads in flight per wavefront
+		var p []Stmt
+		n := 17 + r.Intn(24)
+		scalarHeavy := r.Intn(3) == 0
+		for i := 0; i < n; i++ {
+			op := []string{"fload", "floadu", "gload", "scload"}[r.Intn(4)]
+			if scalarHeavy || r.Intn(5) == 0 {
+				op = "sload"
+			}
+			p = append(p, Stmt{Op: op})
+		}
+		as := []int{0, 1, 2, 7, 14, 15, 15, 15}
+		bs := []int{0, 1, 2, 7, 14, 15, 15, 16, 31}
+		for i := 0; i < 1+r.Intn(3); i++ {
+			p = append(p, Stmt{Op: "waitcnt", A: as[r.Intn(len(as))], B: bs[r.Intn(len(bs))]}, Stmt{Op: "vmov"})
+		}
+		p = append(p, Stmt{Op: "waitcnt", A: 0, B: 0}, Stmt{Op: "use"}, Stmt{Op: "fstore"}, Stmt{Op: "endpgm"})
+		return Case{Name: "waitcnt-grid", NWf: 1 + r.Intn(3), NWg: 1 + r.Intn(2), Prog: p}
+	case 10: // more work-groups than emulation compute units (64): some units finish two groups in one batch; the dispatcher port refuses
+		p := []Stmt{{Op: "nop"}, {Op: "endpgm"}}
+		if r.Intn(2) == 0 {
+			p = []Stmt{{Op: "salu"}, {Op: "barrier"}, {Op: "endpgm"}}
+		}
+		return Case{Name: "emu-batch-with-refusing-dispatcher", NWf: 1, NWg: 66 + r.Intn(30), Refuse: 1 + r.Intn(3), Prog: p}
+	case 11: // pipeline flush + restart while wavefronts wait in s_waitcnt / s_endpgm / at a barrier with memory in flight
+		var p []Stmt
+		for i := 0; i < 1+r.Intn(3); i++ {
+			p = append(p, Stmt{Op: []string{"fload", "floadg", "gload", "floadu"}[r.Intn(4)]}, Stmt{Op: "sload"},
+				Stmt{Op: "waitcnt", A: 0, B: []int{0, 15}[r.Intn(2)]}, Stmt{Op: "use"})
+			if r.Intn(2) == 0 {
+				p = append(p, Stmt{Op: "barrier"})
+			}
+		}
+		p = append(p, Stmt{Op: "fstore"}, Stmt{Op: "endpgm"})
+		fl := []int{20 + r.Intn(120)}
+		if r.Intn(2) == 0 {
+			fl = append(fl, fl[0]+60+r.Intn(200))
+		}
+		return Case{Name: "flush-restart-with-memory-in-flight", NWf: 1 + r.Intn(4), NWg: 1 + r.Intn(3), Flush: fl, Prog: p}
 	default: // exit with memory still in flight
 		return Case{Name: "exit-with-mem-in-flight", NWf: 1 + r.Intn(3), NWg: 1 + r.Intn(2), Prog: []Stmt{
 			{Op: "fload"}, {Op: "sload"}, {Op: "vmov"}, {Op: "fstore"}, {Op: "sload"}, {Op: "endpgm"}}}
@@ -283,7 +322,14 @@ func generate(seed uint64, n int) []Case {
 				nwg--
 			}
 		}
-		cs = append(cs, Case{Name: fmt.Sprintf("rnd%d", i), NWf: nwf, NWg: nwg, Pen: pen, GPU: gpu, Refuse: refuse, Prog: genProg(cr, nwf, mem)})
+		var flush []int
+		if cr.Intn(4) == 0 {
+			flush = []int{20 + cr.Intn(250)}
+			if cr.Intn(3) == 0 {
+				flush = append(flush, flush[0]+50+cr.Intn(300))
+			}
+		}
+		cs = append(cs, Case{Name: fmt.Sprintf("rnd%d", i), NWf: nwf, NWg: nwg, Pen: pen, GPU: gpu, Refuse: refuse, Flush: flush, Prog: genProg(cr, nwf, mem)})
 	}
 	return cs
 }
@@ -326,6 +372,14 @@ func coqTiming(c Case) string {
 	first := true
 	for _, e := range c.Timing.Evs {
 		if e.E == "t" || e.E == "sdone" || e.E == "mfin" {
+			continue
+		}
+		if e.E == "flush" || e.E == "restart" {
+			if !first {
+				sb.WriteString(";")
+			}
+			first = false
+			sb.WriteString(map[string]string{"flush": "ef", "restart": "es"}[e.E])
 			continue
 		}
 		if !first {
